@@ -9,6 +9,22 @@ import sys
 import traceback
 
 
+def _anchor_files(prop: str):
+    """anchors.files of the property (and of the properties whose clauses it re-decides) from properties.jsonl"""
+    files = []
+    p = os.path.join(os.path.dirname(os.path.dirname(os.path.abspath(__file__))), "properties.jsonl")
+    try:
+        with open(p) as fh:
+            for line in fh:
+                if line.strip():
+                    d = json.loads(line)
+                    if d.get("id") == prop:
+                        files += list(d.get("anchors", {}).get("files", []))
+    except OSError:
+        pass
+    return files
+
+
 def main(argv=None) -> int:
     ap = argparse.ArgumentParser()
     ap.add_argument("prop")
@@ -39,19 +55,30 @@ def main(argv=None) -> int:
         from . import report as report_mod
 
         report_mod.set_index(idx)
-        mod.run(idx, rep, args.tier)
         from .props.extra import run_extra
-
-        run_extra(prop, idx, rep, args.tier)
         from .props.extra2 import run_extra2
-
-        run_extra2(prop, idx, rep, args.tier)
         from .props.extra3 import run_extra3
-
-        run_extra3(prop, idx, rep, args.tier)
         from .props.generic import run_generic
 
-        run_generic(prop, idx, rep, args.tier)
+        def stage(name, fn):
+            """A lost anchor is an analysis error (exit 2) — unless the anchored files were restructured (functions
+            that reference private symbols, or contain closures, they did not in the pinned tree; new private
+            functions): then the rules of this stage that come after the lost anchor are undecided, which is
+            recorded and printed, and the other stages still run."""
+            try:
+                fn()
+            except index_mod.AnalysisError as e:
+                moved = report_mod.restructured_functions(_anchor_files(prop))
+                if not moved:
+                    raise
+                rep.inconclusive(f"{prop} {name}", f"anchor lost: {e}"[:200], "", construct="anchor not found", detail=f"not decided: the anchored code was restructured ({'; '.join(moved)[:300]}); the rules of this stage after the lost anchor were not evaluated")
+                rep.count("undecided_after_extract_method")
+
+        stage("property rules", lambda: mod.run(idx, rep, args.tier))
+        stage("seed-driven clauses (1)", lambda: run_extra(prop, idx, rep, args.tier))
+        stage("seed-driven clauses (2)", lambda: run_extra2(prop, idx, rep, args.tier))
+        stage("seed-driven clauses (3)", lambda: run_extra3(prop, idx, rep, args.tier))
+        stage("generic detectors", lambda: run_generic(prop, idx, rep, args.tier))
         if args.tier == "thorough" and not args.no_selftest and not args.repo:
             from .selftest import run_selftest
 
